@@ -1,4 +1,5 @@
 import ScVerif.C10.BusMeasure
+import ScVerif.C10.BusSend
 /-!
 # C10 — property theorems, part 1: the event bus (`internal/minibus/bus.go`)
 
@@ -306,5 +307,43 @@ theorem C10_done_closed (c : Config) (hc : Reachable c) (l : Nat) (hd : (c.ls l)
   · rw [hI.closed l, hd]; rfl
   · rw [hI.nil l, hd]; rfl
   · rw [hI.held l, hd]; rfl
+
+/-- A `Send` without a deadline is never abandoned.  `Collection.Update` and `Collection.Delete` publish with
+`context.TODO()`: no `cancelSend t` ever happens for such a sender `t`.  Then, under every schedule (any number of
+listeners, stalled, cancelled or receiving; other senders with deadlines), `t` never takes the `<-ctx.Done()` case
+of `listener.send`, and every call it has finished returned `true` — it went through its WHOLE snapshot, so by
+`C10_exactly_once` every listener live for the whole send got the event, also the ones registered behind a
+listener that stalled for however long. -/
+theorem C10_send_without_deadline_never_abandons (todo : Nat → Nat) (sched : List Move) (t : Nat)
+    (h : ∀ m ∈ sched, m ≠ .cancelSend t) :
+    let c := run (init todo) sched
+    (c.ss t).pc ≠ .selected .sendCancelled ∧ (∀ r ∈ (c.ss t).results, r = true) :=
+  (noAbandon_run (init todo) sched t h (noAbandon_init todo t)).2
+
+/-- … and it waits for as long as it takes: parked in `listener.send` on a listener that neither receives nor is
+cancelled, a sender whose own context is live has no enabled step (it resumes with the receive or the cancel). -/
+theorem C10_send_without_deadline_waits (c : Config) (t l : Nat) (tl : List Nat)
+    (hpc : (c.ss t).pc = .rlocked) (hrest : (c.ss t).rest = l :: tl) (hctx : (c.ss t).ctxDone = false)
+    (hlive : (c.ls l).cancelled = false) (hidle : (c.ls l).rcvReady = false) :
+    step c (.sDeliver t) = none ∧ step c (.sListenCancelled t) = none ∧ step c (.sSendCancelled t) = none ∧
+    step c (.sRelease t) = none ∧ step c (.sFinish t) = none ∧ step c (.sAcquire t) = none := by
+  simp [step, hpc, hrest, hctx, hlive, hidle]
+
+/-- Why the hypothesis matters (and what a deadline on a collection write would do): a `Send` whose context ends
+while it is parked on the stalled listener 0 returns `false` and SKIPS listener 1 behind it, which is live, has
+posted a receive, and never gets the event — for a REMOVE, a single-item subscription that does not end. -/
+theorem C10_send_deadline_skips_listeners_behind :
+    ∃ sched : List Move,
+      let c := run (init fun _ => 1) sched
+      (c.ss 0).results = [false] ∧ (c.ss 0).pc = .idle ∧ (c.ss 0).snap = [0, 1] ∧
+      (c.ls 1).cancelled = false ∧ (c.ls 1).rcvReady = true ∧ (c.ls 1).recvd = [] :=
+  ⟨[.lSpawn 0, .lRegister 0, .lSpawn 1, .lRegister 1, .recvReq 1, .sSnapshot 0, .sAcquire 0, .cancelSend 0,
+    .sSendCancelled 0, .sRelease 0], by decide⟩
+
+/-- non-vacuity of `C10_send_without_deadline_waits`, reached by a schedule -/
+example :
+    let c := run (init fun _ => 1) [.lSpawn 0, .lRegister 0, .sSnapshot 0, .sAcquire 0]
+    (c.ss 0).pc = .rlocked ∧ (c.ss 0).rest = [0] ∧ (c.ss 0).ctxDone = false ∧ (c.ls 0).cancelled = false ∧
+      (c.ls 0).rcvReady = false := by decide
 
 end ScVerif.C10
